@@ -524,3 +524,86 @@ def native_C19(tier, seed):
         fails.append({"id": "C19-pool-none", "obligation": "no pool", "what": f"enable_pool(None) raised {type(e).__name__}: {e}", "input": {"pool": None}})
     return {"what": "real Aspire.enable_pool / auto_checkpoint: every nesting of {pool, checkpoint file a, file b, file a over pre-existing defaults} with an exception at each level and both close_pool settings; restoration compared by identity and by value",
             "bound": f"nesting depth {depth if tier == 'thorough' else 2}", "cases": cases, "failures": fails}
+
+
+# ------------------------------------------------------------------------------------------ C15
+def _width(dtype):
+    s = str(dtype)
+    return 32 if "32" in s else 64 if "64" in s else None
+
+
+def native_C15(tier, seed):
+    import torch
+    from aspire.samples import BaseSamples, Samples, SMCSamples
+    rng = np.random.default_rng(seed)
+    fails, cases = [], 0
+    NS = namespaces()
+    spellings = {"numpy": [None, "float32", "float64", np.dtype("float32"), np.dtype("float64")], "torch": [None, "float32", "float64", torch.float32, torch.float64],
+                 "jax": [None, "float32", np.dtype("float32")]}
+    default_w = {"numpy": 64, "torch": 32, "jax": 32}
+    subsets = [(), ("log_q",), ("log_likelihood",), ("log_likelihood", "log_prior"), ("log_likelihood", "log_prior", "log_q")]
+    for cls in (BaseSamples, Samples, SMCSamples):
+        for sname, sxp, _ in NS:
+            for spec in spellings[sname]:
+                for present in subsets:
+                    n = 5
+                    kw = {k: rng.normal(size=n) for k in present}
+                    if cls is SMCSamples:
+                        kw.update(beta=0.4, log_evidence=1.5, log_evidence_error=0.1)
+                    try:
+                        s = cls(rng.normal(size=(n, 2)), xp=sxp, dtype=spec, parameters=["a", "b"], **kw)
+                    except Exception as e:  # noqa: BLE001
+                        fails.append({"id": f"C15-build-{cls.__name__}-{sname}-{spec}", "obligation": "C15", "what": f"{type(e).__name__}: {e}", "input": {"class": cls.__name__, "ns": sname, "dtype": str(spec)}})
+                        continue
+                    w = _width(spec) if spec is not None else default_w[sname]
+                    if _width(s.x.dtype) != w:
+                        fails.append({"id": f"C15-requested-{cls.__name__}-{sname}-{spec}", "obligation": "keeps the requested width", "what": f"requested {spec}, got {s.x.dtype}", "input": {"class": cls.__name__, "ns": sname, "dtype": str(spec)}})
+                    ref = {k: np.asarray(getattr(s, k), dtype=np.float64) if getattr(s, k) is not None else None for k in ("x", "log_likelihood", "log_prior", "log_q")}
+                    for tname, txp, _ in NS:
+                        if tname == "jax" and w == 64:
+                            continue        # needs the jax x64 switch: library configuration
+                        for how in ("to_namespace", "to_numpy", "from_samples"):
+                            if how == "to_numpy" and tname != "numpy":
+                                continue
+                            cases += 1
+                            inp = {"class": cls.__name__, "source": sname, "target": tname, "dtype": str(spec), "present": list(present), "via": how}
+                            try:
+                                if how == "to_namespace":
+                                    t = s.to_namespace(txp)
+                                elif how == "to_numpy":
+                                    t = s.to_numpy()
+                                else:
+                                    t = cls.from_samples(s, xp=txp, **({"beta": 0.4} if cls is SMCSamples else {}))
+                            except Exception as e:  # noqa: BLE001
+                                fails.append({"id": f"C15-{how}-raise-{cls.__name__}-{sname}-{tname}-{spec}-{len(present)}", "obligation": "conversion succeeds", "what": f"{how}: {type(e).__name__}: {str(e)[:150]}", "input": inp})
+                                continue
+                            for k, v in ref.items():
+                                g = getattr(t, k)
+                                if (v is None) != (g is None):
+                                    fails.append({"id": f"C15-{how}-field-{cls.__name__}-{sname}-{tname}-{spec}-{k}", "obligation": f"absent field {k}", "what": f"{how}: optional field {k} {'appeared' if v is None else 'was dropped'}", "input": inp})
+                                elif v is not None:
+                                    ga = np.asarray(g.detach() if hasattr(g, "detach") else g, dtype=np.float64)
+                                    if not np.array_equal(ga, v):
+                                        fails.append({"id": f"C15-{how}-values-{cls.__name__}-{sname}-{tname}-{spec}-{k}", "obligation": f"values of {k} preserved", "what": f"{how}: values of {k} changed", "input": inp})
+                                    if _width(g.dtype) != w:
+                                        fails.append({"id": f"C15-{how}-width-{cls.__name__}-{sname}-{tname}-{spec}-{k}", "obligation": f"{k} keeps the floating-point width", "what": f"{how}: {k} has dtype {g.dtype}, source width {w}", "input": inp})
+                            want_ns = "array_api_compat." + tname if tname != "jax" else "jax.numpy"
+                            if t.xp.__name__ != want_ns:
+                                fails.append({"id": f"C15-{how}-ns-{cls.__name__}-{sname}-{tname}-{spec}", "obligation": "target namespace", "what": f"{how}: namespace {t.xp.__name__}", "input": inp})
+                            if cls is SMCSamples and how != "from_samples" and (t.beta != 0.4 or t.log_evidence is None or float(t.log_evidence) != 1.5):
+                                fails.append({"id": f"C15-{how}-smcfields-{sname}-{tname}-{spec}", "obligation": "beta carried", "what": f"{how}: beta={t.beta} log_evidence={t.log_evidence}", "input": inp})
+    # proposal outputs consumed in any sample namespace
+    from aspire.flows.torch.flows import ZukoFlow
+    zf = ZukoFlow(dims=2, hidden_features=[8], transforms=1)
+    x, lq = zf.sample_and_log_prob(6)
+    lp2 = zf.log_prob(x)
+    for tname, txp, _ in NS:
+        cases += 1
+        try:
+            smp = Samples(x, log_q=lp2, xp=txp)
+            if not np.allclose(np.asarray(smp.log_q.detach() if hasattr(smp.log_q, "detach") else smp.log_q, dtype=float), np.asarray(lp2.detach(), dtype=float)):
+                fails.append({"id": f"C15-proposal-values-{tname}", "obligation": "C15", "what": "proposal log-density changed when consumed", "input": {"target": tname}})
+        except Exception as e:  # noqa: BLE001
+            fails.append({"id": f"C15-proposal-{tname}", "obligation": "proposal outputs", "what": f"zuko log_prob output cannot be consumed in {tname} samples: {type(e).__name__}: {str(e)[:120]}", "input": {"target": tname}})
+    return {"what": "exhaustive grid: sample class x source namespace x target namespace x dtype spelling (default, strings, native objects) x optional-field subset through to_namespace / to_numpy / from_samples; zuko proposal outputs consumed in each namespace",
+            "bound": f"{cases} conversions (complete grid; jax float64 excluded: needs the x64 switch)", "cases": cases, "failures": fails, "exhaustive": True}
